@@ -242,6 +242,10 @@ def run(ctx, res):
     # to a running eval (e.g. clearing on *enqueue*, while the previous eval is still executing).
     # sigint_watchdog consumes the process-wide SIGINT flag with swap(false) (not a session flag) and fans it out
     clear_ok = {"nrepl::session_worker", "eval::eval", "nrepl::sigint_watchdog"}
+    _L = EL.locate(P)
+    _h = EL.prestep_flag_helper(_L, P)
+    if _h is not None and not _h["problems"]:
+        clear_ok.add(_h["name"])     # eval's consumed-interrupt exit, extracted into its per-step helper (shape checked by C08's rule)
     n_c = 0
     for p in sorted(P.funcs):
         fn = P.funcs[p]
@@ -265,6 +269,8 @@ def run(ctx, res):
     loads = [sw for sw in D.bool_switches(f) if sw["bb"] in L.pre_region and sw["root"][0] == "call" and (M.callee_name(sw["root"][2]) or "").endswith("::load")]
     if len(loads) == 1 and f.dominates(loads[0]["bb"], L.step_bb):
         res.ok("PER-STEP-CHECK", "eval::eval loads the interrupt flag on every path to every step")
+    elif not loads and _h is not None and not _h["problems"]:
+        res.ok("PER-STEP-CHECK", "eval::eval calls %s before every step, which loads the interrupt flag on every path" % _h["name"])
     else:
         res.bad("PER-STEP-CHECK", "eval::eval # flag-load", "the interrupt flag is not loaded on every step (found %d loads)" % len(loads), f.loc())
     res.extra["functions_analysed"] = 6
